@@ -310,7 +310,7 @@ var mutators = []cand{
 }
 
 func run(r *ev.Run, cfg props.Cfg) {
-	n := cfg.Pick(300, 5000)
+	n := cfg.Pick(4000, 60000)
 	var wg sync.WaitGroup
 	per := (n + cfg.Workers - 1) / cfg.Workers
 	for w := 0; w < cfg.Workers; w++ {
